@@ -23,6 +23,10 @@ class Undecided(Exception):
     violation."""
 
 
+class Restart(Exception):
+    """Re-run the whole script (a loop frame was learnt)."""
+
+
 class Obligation(object):
     __slots__ = ('name', 'kind', 'pc', 'hyps', 'goal', 'path', 'info')
 
@@ -57,6 +61,8 @@ class Explorer(object):
         self.solver.set('timeout', self.feas_timeout_ms)
         self.notes = []
         self.qdepth = 0
+        self._salt = ()
+        self.trial = 0
 
     def fresh_name(self, base):
         self.counter += 1
@@ -81,8 +87,20 @@ class Explorer(object):
         obligations, not for path feasibility."""
         self.hyps.append(f)
 
+    def push_assumption(self, f):
+        """Temporarily strengthen the path condition (if-conversion)."""
+        self.solver.push()
+        self.solver.add(f)
+        self._salt = getattr(self, '_salt', ()) + (f.sexpr(),)
+        self.pc.append(f)
+
+    def pop_assumption(self):
+        self.solver.pop()
+        self._salt = self._salt[:-1]
+        self.pc.pop()
+
     def _check(self, extra):
-        key = (tuple(self.trace), extra.sexpr())
+        key = (tuple(self.trace), getattr(self, '_salt', ()), extra.sexpr())
         if key in self._feas_cache:
             return self._feas_cache[key]
         t0 = time.time()
@@ -102,6 +120,16 @@ class Explorer(object):
             return True
         if z3.is_false(cond):
             return False
+        if getattr(self, 'trial', 0):
+            # inside an if-conversion trial: decisions must be forced by the
+            # (temporarily strengthened) path condition; nothing is recorded
+            t_ok = self._check(cond)
+            f_ok = self._check(z3.Not(cond))
+            if t_ok and f_ok:
+                raise Undecided('data-dependent branch inside a trial: %s' % cond)
+            if not t_ok and not f_ok:
+                raise Infeasible()
+            return t_ok
         idx = len(self.trace)
         if idx < len(self.prefix):
             choice = self.prefix[idx]
@@ -128,6 +156,8 @@ class Explorer(object):
 
     def choose(self, n, tag=None):
         """Non-deterministic choice among n alternatives (all explored)."""
+        if getattr(self, 'trial', 0):
+            raise Undecided('non-deterministic choice inside a trial')
         idx = len(self.trace)
         if idx < len(self.prefix):
             choice = self.prefix[idx]
@@ -151,6 +181,7 @@ class Explorer(object):
         completed paths."""
         self.pending = [[]]
         completed = 0
+        restarts = 0
         while self.pending:
             prefix = self.pending.pop()
             self._reset(prefix)
@@ -166,4 +197,12 @@ class Explorer(object):
                 self.path_log.append((tuple(self.trace), 'pathend'))
             except Infeasible:
                 self.path_log.append((tuple(self.trace), 'infeasible'))
+            except Restart:
+                restarts += 1
+                if restarts > 40:
+                    raise Undecided('too many restarts while learning loop frames')
+                self.pending = [[]]
+                self.obligations = []
+                self._feas_cache = {}
+                completed = 0
         return completed
